@@ -690,14 +690,14 @@ def c03_cfgs(quick):
     TLC checks the properties on every transition in any case."""
     if quick:
         return [("MC_TreeOps_C03_d1.cfg", "d1", 20000), ("MC_TreeOps_C03_d1u.cfg", "d1u", 6000), ("MC_TreeOps_C03_d2.cfg", "d2", 12000)]
-    return [("MC_TreeOps_C03_d1.cfg", "d1", None), ("MC_TreeOps_C03_d1u.cfg", "d1u", None), ("MC_TreeOps_C03_d2t.cfg", "d2t", 150000),
-            ("MC_TreeOps_C03_d3t.cfg", "d3t", 60000), ("MC_TreeOps_C03_d3t4.cfg", "d3t4", 60000)]
+    return [("MC_TreeOps_C03_d1.cfg", "d1", None), ("MC_TreeOps_C03_d1u.cfg", "d1u", None), ("MC_TreeOps_C03_d2t.cfg", "d2t", 100000),
+            ("MC_TreeOps_C03_d3t.cfg", "d3t", 40000), ("MC_TreeOps_C03_d3t4.cfg", "d3t4", 40000)]
 
 
 def c07_cfgs(quick):
     if quick:
         return [("MC_TreeOps_C07_d1.cfg", "d1", 20000), ("MC_TreeOps_C07_d2.cfg", "d2", 12000)]
-    return [("MC_TreeOps_C07_d1.cfg", "d1", None), ("MC_TreeOps_C07_d1t.cfg", "d1t", 150000), ("MC_TreeOps_C07_d2t.cfg", "d2t", 100000),
+    return [("MC_TreeOps_C07_d1.cfg", "d1", None), ("MC_TreeOps_C07_d1t.cfg", "d1t", 120000), ("MC_TreeOps_C07_d2t.cfg", "d2t", 100000),
             ("MC_TreeOps_C07_d3t.cfg", "d3t", 60000)]
 
 
